@@ -92,7 +92,7 @@ def conn_view(toks):
                 sel = c
         elif x.startswith(("R ", "RX ")):
             reqs.append((int(x.split()[1], 16), cur))
-        elif x.startswith(("P ", "PS ", "PG ", "PL ")):
+        elif x.startswith(("P ", "PS ", "PG ", "PL ", "PC ")):
             emitted[sel].append(int(x.split()[1], 16))
         elif x.startswith("B "):
             cut[sel] = True
@@ -159,7 +159,7 @@ def multi_schedule(r, adversarial=False):
     return toks
 
 
-ARITY = {"BB": 4, "RX": 1, "PL": 2, "R": 1, "G": 1, "W": 0, "WE": 0, "D": 1, "T": 1, "CA": 0, "CF": 0, "SEL": 1, "P": 1, "PS": 2, "PG": 3, "PT": 2, "B": 1, "H": 0, "U": 0, "RN": 2, "RS": 2, "AW": 1, "HR": 0}
+ARITY = {"BB": 4, "RX": 1, "PL": 2, "R": 1, "G": 1, "W": 0, "WE": 0, "D": 1, "T": 1, "CA": 0, "CF": 0, "SEL": 1, "P": 1, "PS": 2, "PG": 3, "PT": 2, "B": 1, "H": 0, "U": 0, "RN": 2, "RS": 2, "AW": 1, "HR": 0, "PC": 1, "TR": 1}
 
 
 def regress_schedules(pid):
@@ -400,6 +400,16 @@ def check_C11(chk, tier, seed):
         cases.append((line(toks), toks, "answered-then-ended"))
         toks = ["R c1", "W", "R c2", f"G {hx(g)}", "P c2", "P c1", f"B {end}", "W"]
         cases.append((line(toks), toks, "answered-then-ended"))
+    # answers whose command code differs from the request's (a peer that answers a CCR with an accounting answer is wrong - that is the
+    # application's to find out: the client matches by hop-by-hop id), and a request answered only after 31 s / an hour during which other
+    # requests were sent and answered: each future gets its answer
+    for toks in (["R e1", "W", "R e2", "W", "PC e2", "P e1"], ["R e1", "W", "PC e1"], ["R e1", "W", "R e2", "W", "PC e1", "PC e2"],
+                 ["R e1", "W", "T 7918", "R e2", "W", "P e1", "P e2"], ["R e1", "W", "T 36ee80", "R e2", "W", "P e2", "T 7918", "R e3", "W", "P e1", "P e3"]):
+        cases.append((line(toks), toks, True))
+    if tier == "thorough":
+        # ... and the same with 31 s of wall-clock time (thorough tier only: it takes that long)
+        toks = ["R e1", "W", "TR 7918", "R e2", "W", "P e1", "P e2"]
+        cases.append((line(toks), toks, True))
     # the caller drives handle() from a select! / timeout of its own: the handle() future is dropped while the connection is idle
     # (nothing half-read) and handle() is called again on the same ClientHandler - the requests in flight are still answered
     for toks in (["R d1", "W", "R d2", "W", "HR", "P d1", "P d2"], ["R d1", "W", "HR", "HR", "P d1"], ["R d1", "W", "P d1", "HR", "R d2", "W", "P d2"],
